@@ -1,5 +1,9 @@
 SPECIFICATION Spec
-CONSTANTS MaxLen = 2
+CONSTANTS Kinds = {"plain", "mixed"}
+          MixedServerSet = {"none", "rel"}
+          MixedCoreServers = {}
+          MixedMethKeys = {"G", "P", "GP"}
+          MaxLen = 2
           MaxT = 3
           ServerSet = {"none", "rel"}
           CoreLen = 0
